@@ -253,6 +253,30 @@ Definition validate_stream (fixed : bool) (writes : list bytes) (reads : list (n
   andb (beq (concat (map snd reads)) (concat writes))
        (orb (negb fixed) (forallb (fun r => length (snd r) <=? fst r) reads)).
 
+(* the same without the FIFO hypothesis (multi-thread runtime): the bytes read are the concatenation of SOME
+   permutation of the writes.  Backtracking search: pick any remaining write that is a prefix of what is left. *)
+Fixpoint strip_prefix (w got : bytes) : option bytes :=
+  match w, got with
+  | [], _ => Some got
+  | x :: w', y :: got' => if N.eqb x y then strip_prefix w' got' else None
+  | _ :: _, [] => None
+  end.
+Fixpoint pick (f : list bytes -> bytes -> bool) (pre post : list bytes) (got : bytes) : bool :=
+  match post with
+  | [] => false
+  | w :: post' =>
+      orb (match strip_prefix w got with Some rest => f (rev_append pre post') rest | None => false end)
+          (pick f (w :: pre) post' got)
+  end.
+Fixpoint perm_concat (fuel : nat) (ws : list bytes) (got : bytes) : bool :=
+  match ws with
+  | [] => is_nil got
+  | _ :: _ => match fuel with O => false | S f => pick (perm_concat f) [] ws got end
+  end.
+Definition validate_stream_unordered (fixed : bool) (writes : list bytes) (reads : list (nat * bytes)) : bool :=
+  andb (perm_concat (length writes) writes (concat (map snd reads)))
+       (orb (negb fixed) (forallb (fun r => length (snd r) <=? fst r) reads)).
+
 Fixpoint remove_one (d : bytes) (l : list bytes) : option (list bytes) :=
   match l with
   | [] => None
